@@ -1,4 +1,5 @@
-From ST Require Import Base.Ints Base.F64 Model.NtpTime Model.Units Proofs.NtpTimeProofs.
+From ST Require Import Base.Ints Base.F64 Model.NtpTime Model.Units Model.UnitsOracle Proofs.NtpTimeProofs.
+From Coq Require Import Bool.
 From Coq Require Import ZArith Lia.
 Open Scope Z_scope.
 Ltac Zify.zify_post_hook ::= Z.to_euclidean_division_equations.
@@ -59,26 +60,32 @@ Proof. unfold in_i64, sat64, min_i64, max_i64. intros. destruct (x <? _) eqn:A; 
 (* The CSPTP formulas recover a true offset theta and a symmetric one-way delay
    delta exactly: client stamps t0 (send) and t3 (receive), server stamps t1
    and t2 on a clock that is theta ahead, corrections c1 and c3 accumulated on
-   the way (residence times), all magnitudes below 2^60 ns so that no int64
-   operation wraps. *)
-Definition small (x : Z) : Prop := - 2^60 <= x <= 2^60.
+   the way (residence times).  Hypothesis = the property's "combinations that do
+   not overflow int64 nanoseconds": every int64 subtraction/addition the Go code
+   performs stays in range.  The absolute times t0 and t2 are arbitrary. *)
+Definition csptp_no_overflow (theta delta c1 c3 : Z) : Prop :=
+  in_i64 (theta + delta + c1) /\ in_i64 (- theta + delta + c3) /\   (* t1 - t0 and t3 - t2 *)
+  in_i64 (theta + delta) /\ in_i64 (- theta + delta) /\             (* ... minus the corrections *)
+  in_i64 (2 * theta) /\ in_i64 (2 * delta).                          (* their difference and sum *)
 
 Lemma csptp_formulas t0 t2 theta delta c1 c3 :
-  small t0 -> small t2 -> small theta -> small delta -> small c1 -> small c3 ->
+  csptp_no_overflow theta delta c1 c3 ->
   let t1 := t0 + theta + delta + c1 in
   let t3 := t2 - theta + delta + c3 in
   csptp_clock_offset t0 t1 t2 t3 c1 c3 = theta /\
   csptp_mean_path_delay t0 t1 t2 t3 c1 c3 = delta.
 Proof.
-  unfold small. change (2^60) with 1152921504606846976. intros H0 H2 Ht Hd H1 H3. cbv zeta.
+  unfold csptp_no_overflow, in_i64, min_i64, max_i64. intros [H1 [H3 [Ha [Hb [Ht Hd]]]]]. cbv zeta.
   unfold csptp_clock_offset, csptp_mean_path_delay, d_sub, d_add, time_sub, go_div.
-  rewrite !sat64_id by (unfold in_i64, min_i64, max_i64; lia).
   replace (t0 + theta + delta + c1 - t0) with (theta + delta + c1) by ring.
   replace (t2 - theta + delta + c3 - t2) with (- theta + delta + c3) by ring.
-  rewrite (i64_id (theta + delta + c1 - c1)) by (unfold min_i64, max_i64; lia).
-  rewrite (i64_id (- theta + delta + c3 - c3)) by (unfold min_i64, max_i64; lia).
-  replace (theta + delta + c1 - c1 - (- theta + delta + c3 - c3)) with (2 * theta) by ring.
-  replace (theta + delta + c1 - c1 + (- theta + delta + c3 - c3)) with (2 * delta) by ring.
+  rewrite !sat64_id by (unfold in_i64, min_i64, max_i64; lia).
+  replace (theta + delta + c1 - c1) with (theta + delta) by ring.
+  replace (- theta + delta + c3 - c3) with (- theta + delta) by ring.
+  rewrite (i64_id (theta + delta)) by (unfold min_i64, max_i64; lia).
+  rewrite (i64_id (- theta + delta)) by (unfold min_i64, max_i64; lia).
+  replace (theta + delta - (- theta + delta)) with (2 * theta) by ring.
+  replace (theta + delta + (- theta + delta)) with (2 * delta) by ring.
   rewrite (i64_id (2 * theta)) by (unfold min_i64, max_i64; lia).
   rewrite (i64_id (2 * delta)) by (unfold min_i64, max_i64; lia).
   replace (Z.quot (2 * theta) 2) with theta by (symmetry; rewrite Z.mul_comm; apply Z.quot_mul; lia).
@@ -86,20 +93,98 @@ Proof.
   rewrite !i64_id by (unfold min_i64, max_i64; lia). split; reflexivity.
 Qed.
 
+(* corollary in the earlier form: magnitudes of offset, delay and corrections below 2^60 ns *)
+Definition small (x : Z) : Prop := - 2^60 <= x <= 2^60.
+
+Lemma small_no_overflow theta delta c1 c3 :
+  small theta -> small delta -> small c1 -> small c3 -> csptp_no_overflow theta delta c1 c3.
+Proof.
+  unfold small, csptp_no_overflow, in_i64, min_i64, max_i64. change (2^60) with 1152921504606846976. lia.
+Qed.
+
+Definition csptp_delays_no_overflow (theta d1 d2 c1 c3 utc : Z) : Prop :=
+  in_i64 (theta + d1 + c1 + utc) /\ in_i64 (theta + d1 + utc) /\ in_i64 (theta + d1) /\
+  in_i64 (- theta + d2 + c3 - utc) /\ in_i64 (- theta + d2 - utc) /\ in_i64 (- theta + d2).
+
 Lemma csptp_delays t0 t2 theta d1 d2 c1 c3 utc :
-  small t0 -> small t2 -> small theta -> small d1 -> small d2 -> small c1 -> small c3 -> small utc ->
+  csptp_delays_no_overflow theta d1 d2 c1 c3 utc ->
   let t1 := t0 + theta + d1 + c1 + utc in
   let t3 := t2 - theta + d2 + c3 - utc in
   csptp_c2s_delay t0 t1 c1 utc = theta + d1 /\ csptp_s2c_delay t2 t3 c3 utc = - theta + d2.
 Proof.
-  unfold small. change (2^60) with 1152921504606846976. intros H0 H2 Ht Hd1 Hd2 H1 H3 Hu. cbv zeta.
+  unfold csptp_delays_no_overflow, in_i64, min_i64, max_i64. intros [A1 [A2 [A3 [B1 [B2 B3]]]]]. cbv zeta.
   unfold csptp_c2s_delay, csptp_s2c_delay, d_sub, d_add, time_sub.
-  rewrite !sat64_id by (unfold in_i64, min_i64, max_i64; lia).
   replace (t0 + theta + d1 + c1 + utc - t0) with (theta + d1 + c1 + utc) by ring.
   replace (t2 - theta + d2 + c3 - utc - t2) with (- theta + d2 + c3 - utc) by ring.
-  rewrite (i64_id (theta + d1 + c1 + utc - c1)) by (unfold min_i64, max_i64; lia).
-  rewrite (i64_id (- theta + d2 + c3 - utc - c3)) by (unfold min_i64, max_i64; lia).
+  rewrite !sat64_id by (unfold in_i64, min_i64, max_i64; lia).
+  replace (theta + d1 + c1 + utc - c1) with (theta + d1 + utc) by ring.
+  replace (- theta + d2 + c3 - utc - c3) with (- theta + d2 - utc) by ring.
+  rewrite (i64_id (theta + d1 + utc)) by (unfold min_i64, max_i64; lia).
+  rewrite (i64_id (- theta + d2 - utc)) by (unfold min_i64, max_i64; lia).
   rewrite !i64_id by (unfold min_i64, max_i64; lia). split; ring.
+Qed.
+
+(* ---- the CSPTP oracles hold for the model on all inputs ---- *)
+Ltac split_andb := repeat match goal with H : (_ && _)%bool = true |- _ => apply andb_true_iff in H; destruct H end.
+Lemma in_i64b_true x : in_i64b x = true -> in_i64 x.
+Proof. unfold in_i64b, in_i64. intros H. apply andb_true_iff in H. destruct H as [A B]. apply Z.leb_le in A. apply Z.leb_le in B. lia. Qed.
+
+Lemma recover_oracle t0 t2 theta delta c1 c3 :
+  let t1 := t0 + theta + delta + c1 in
+  let t3 := t2 - theta + delta + c3 in
+  C18_recover_ok theta delta c1 c3 (csptp_clock_offset t0 t1 t2 t3 c1 c3) (csptp_mean_path_delay t0 t1 t2 t3 c1 c3) = true.
+Proof.
+  cbv zeta. unfold C18_recover_ok. destruct (C18_recover_range theta delta c1 c3) eqn:Rg; [|reflexivity].
+  unfold C18_recover_range in Rg. split_andb.
+  destruct (csptp_formulas t0 t2 theta delta c1 c3) as [E1 E2].
+  { refine (conj _ (conj _ (conj _ (conj _ (conj _ _))))); apply in_i64b_true; assumption. }
+  cbv zeta in E1, E2. rewrite E1, E2, !Z.eqb_refl. reflexivity.
+Qed.
+
+Lemma delays_oracle t0 t2 theta d1 d2 c1 c3 utc :
+  let t1 := t0 + theta + d1 + c1 + utc in
+  let t3 := t2 - theta + d2 + c3 - utc in
+  C18_delays_ok theta d1 d2 c1 c3 utc (csptp_c2s_delay t0 t1 c1 utc) (csptp_s2c_delay t2 t3 c3 utc) = true.
+Proof.
+  cbv zeta. unfold C18_delays_ok. destruct (C18_delays_range theta d1 d2 c1 c3 utc) eqn:Rg; [|reflexivity].
+  unfold C18_delays_range in Rg. split_andb.
+  destruct (csptp_delays t0 t2 theta d1 d2 c1 c3 utc) as [E1 E2].
+  { refine (conj _ (conj _ (conj _ (conj _ (conj _ _))))); apply in_i64b_true; assumption. }
+  cbv zeta in E1, E2. rewrite E1, E2, !Z.eqb_refl. reflexivity.
+Qed.
+
+Lemma formulas_oracle t0 t1 t2 t3 c1 c3 utc :
+  C18_formulas_ok t0 t1 t2 t3 c1 c3 utc
+    (csptp_clock_offset t0 t1 t2 t3 c1 c3) (csptp_mean_path_delay t0 t1 t2 t3 c1 c3)
+    (csptp_c2s_delay t0 t1 c1 utc) (csptp_s2c_delay t2 t3 c3 utc) = true.
+Proof.
+  unfold C18_formulas_ok. cbv zeta.
+  unfold csptp_clock_offset, csptp_mean_path_delay, csptp_c2s_delay, csptp_s2c_delay, d_sub, d_add, time_sub, go_div.
+  assert (Q : forall x, in_i64 x -> in_i64 (Z.quot x 2)).
+  { unfold in_i64, min_i64, max_i64. intros x Hx. pose proof (Z.quot_rem' x 2). pose proof (Z.rem_bound_abs x 2). lia. }
+  repeat (apply andb_true_iff; split).
+  - destruct (in_i64b (t1 - t0) && in_i64b (t1 - t0 - c1) && (in_i64b (t3 - t2) && in_i64b (t3 - t2 - c3)) && in_i64b (t1 - t0 - c1 - (t3 - t2 - c3))) eqn:Rg; [|reflexivity].
+    split_andb.
+    repeat match goal with H : in_i64b _ = true |- _ => apply in_i64b_true in H end.
+    rewrite !sat64_id by assumption. rewrite (i64_id (t1 - t0 - c1)), (i64_id (t3 - t2 - c3)) by assumption.
+    rewrite (i64_id (t1 - t0 - c1 - (t3 - t2 - c3))) by assumption.
+    rewrite i64_id by (apply Q; assumption). apply Z.eqb_refl.
+  - destruct (in_i64b (t1 - t0) && in_i64b (t1 - t0 - c1) && (in_i64b (t3 - t2) && in_i64b (t3 - t2 - c3)) && in_i64b (t1 - t0 - c1 + (t3 - t2 - c3))) eqn:Rg; [|reflexivity].
+    split_andb.
+    repeat match goal with H : in_i64b _ = true |- _ => apply in_i64b_true in H end.
+    rewrite !sat64_id by assumption. rewrite (i64_id (t1 - t0 - c1)), (i64_id (t3 - t2 - c3)) by assumption.
+    rewrite (i64_id (t1 - t0 - c1 + (t3 - t2 - c3))) by assumption.
+    rewrite i64_id by (apply Q; assumption). apply Z.eqb_refl.
+  - destruct (in_i64b (t1 - t0) && in_i64b (t1 - t0 - c1) && in_i64b (t1 - t0 - c1 - utc)) eqn:Rg; [|reflexivity].
+    split_andb.
+    repeat match goal with H : in_i64b _ = true |- _ => apply in_i64b_true in H end.
+    rewrite !sat64_id by assumption. rewrite (i64_id (t1 - t0 - c1)) by assumption.
+    rewrite i64_id by assumption. apply Z.eqb_refl.
+  - destruct (in_i64b (t3 - t2) && in_i64b (t3 - t2 - c3) && in_i64b (t3 - t2 - c3 + utc)) eqn:Rg; [|reflexivity].
+    split_andb.
+    repeat match goal with H : in_i64b _ = true |- _ => apply in_i64b_true in H end.
+    rewrite !sat64_id by assumption. rewrite (i64_id (t3 - t2 - c3)) by assumption.
+    rewrite i64_id by assumption. apply Z.eqb_refl.
 Qed.
 
 Example csptp_formulas_inhabited :
